@@ -39,6 +39,9 @@ type c08Case struct {
 	// Resumed: the subscriber's session was created by a client of the OTHER protocol version and is resumed (no
 	// clean start) by the connection under test - what is forwarded follows the version of the current connection
 	Resumed bool `json:"resumed,omitempty"`
+	// Empty (live, with RETAIN): the payload has length zero - the publish that clears the topic's retained message
+	// is still a publish: it is forwarded like any other
+	Empty bool `json:"empty,omitempty"`
 }
 
 type c08Copy struct {
@@ -85,6 +88,7 @@ func (p *c08Prop) Gen(r *Rng, i int, tier string) interface{} {
 	c.Overlap = r.Chance(40)
 	c.Self = r.Chance(30)
 	c.Resumed = r.Chance(15)
+	c.Empty = c.PR && r.Chance(30)
 	c.AliasPub = c.PV == 5 && r.Chance(35)
 	n := 1 + r.Intn(3)
 	perm := []int{0, 1, 2, 3, 4}
@@ -163,6 +167,9 @@ func (p *c08Prop) Run(ci interface{}) interface{} {
 	defer b.Drop()
 	sv, pv := mqttp.ProtocolVersion(c.SV), mqttp.ProtocolVersion(c.PV)
 	payload := []byte{0xC0, 0x08, 1, 2, 3}
+	if c.Empty {
+		payload = []byte{}
+	}
 	sc := b.Dial()
 	aliasMax := uint16(0)
 	if c.Kind == "retained" && c.SV == 5 {
